@@ -229,8 +229,8 @@ def run_routes(t):
                 sc.uf_eq('defaulted boundary argument == zero boundary state c[%d,%d]' % (r, dd), 'cS6.%d.%d' % (r, dd), 'cS7.%d.%d' % (r, dd))
         E = sc.enc
         for key in ['start', 'end', 'dur'] + ['cum.%d' % i for i in range(N + 1)]:
-            sc.uf_eq('re-update with the same durations and another start time: %s == constructor' % key, 'm8.' + key, 'm1.' + key)
-            sc.uf_eq('built from time points, re-updated with durations and a start time: %s == constructor' % key, 'm10.' + key, 'm1.' + key)
+            sc.uf_eq('re-update with the same durations and another start time: %s == constructor' % key, 'm8.' + key, 'm1.' + key, real_fallback=True)
+            sc.uf_eq('built from time points, re-updated with durations and a start time: %s == constructor' % key, 'm10.' + key, 'm1.' + key, real_fallback=True)
         sc.uf_node_eq('m8 start time == given start time', 'm8.start', g.varid[pr.t0])
         sc.uf_node_eq('m10 start time == given start time', 'm10.start', g.varid[pr.t0])
         for m in ('m2', 'm5', 'm9', 'm11'):
